@@ -706,6 +706,80 @@ fn main() {
                 })
             },
         );
+        // (4) multi-record files read through every API, in particular the ones that REUSE one
+        // RecordBuf / Record (see C09 for the record set)
+        ctx.rule(
+            "multi-record BCF files: all ordered pairs + triples of gvcf::multi::record_set x fileformat x 5 read APIs \
+             (reused RecordBuf loop, record_bufs(), fresh buffer, reused lazy Record, records()); every record is \
+             compared with its own expectation",
+        );
+        let m_hdrs: Vec<vcf::Header> =
+            FILE_FORMATS.iter().map(|&ff| gen_::rich_header(ff, 2, IdxMode::Implicit).build().unwrap()).collect();
+        let sets: Vec<Vec<(String, Rec)>> = FILE_FORMATS.iter().map(|&ff| gvcf::multi::record_set(ff)).collect();
+        let seqs = gvcf::multi::sequences(sets[0].len());
+        let n_seq = seqs.len() as u64;
+        let files = Mutex::new(std::collections::HashSet::new());
+        let describe = |i: u64| {
+            let fi = (i / n_seq) as usize;
+            let seq = &seqs[(i % n_seq) as usize];
+            let names: Vec<&str> = seq.iter().map(|&k| sets[fi][k].0.as_str()).collect();
+            format!(
+                "fileformat={}.{} header=gvcf::gen_::rich_header(ff,2 samples) records=gvcf::multi::record_set(ff)[{names:?}] i.e. {}",
+                FILE_FORMATS[fi].0,
+                FILE_FORMATS[fi].1,
+                seq.iter().map(|&k| sets[fi][k].1.show()).collect::<Vec<_>>().join(" ; ")
+            )
+        };
+        ctx.sweep("multi_record_reuse", n_seq * FILE_FORMATS.len() as u64, describe, |i| {
+            let fi = (i / n_seq) as usize;
+            let seq = &seqs[(i % n_seq) as usize];
+            let header = &m_hdrs[fi];
+            let exp: Vec<&Rec> = seq.iter().map(|&k| &sets[fi][k].1).collect();
+            let rbs: Vec<_> = exp.iter().map(|r| r.to_record_buf()).collect();
+            let bytes = match io::bcf_write(header, &rbs) {
+                Ok(b) => b,
+                Err(f) => return Err(fail_violation("multi-write", &f, "multi-record", String::new(), "Ok (every record of the set is accepted on its own)")),
+            };
+            {
+                use std::hash::{Hash, Hasher};
+                let mut h = std::collections::hash_map::DefaultHasher::new();
+                bytes.hash(&mut h);
+                files.lock().unwrap().insert(h.finish());
+            }
+            for (api, api_name) in io::READ_APIS.iter().enumerate() {
+                let got = match io::bcf_read_file(&bytes, api, exp.len()) {
+                    Ok(g) => g,
+                    Err(f) => {
+                        let mut v = fail_violation("multi-read", &f, "multi-record", String::new(), "every record reads back");
+                        v.fingerprint = format!("{} api={api_name}", v.fingerprint);
+                        return Err(v);
+                    }
+                };
+                if got.len() != exp.len() {
+                    return Err(Violation::new(
+                        format!("stage=multi-read api={api_name} symptom=record-count"),
+                        String::new(),
+                        format!("{} records", exp.len()),
+                        format!("{}", got.len()),
+                    ));
+                }
+                for (k, (e, g)) in exp.iter().zip(&got).enumerate() {
+                    if let Some(d) = diff_rec(e, g, FloatMode::Bits) {
+                        let position = if k == 0 { "first" } else { "after-another-record" };
+                        return Err(Violation::new(
+                            format!("stage=multi-read api={api_name} position={position} {}", d.fp()),
+                            String::new(),
+                            format!("record {k} of the file == the record written at position {k}"),
+                            d.detail,
+                        ));
+                    }
+                }
+            }
+            Ok(())
+        });
+        let d = files.lock().unwrap().len() as u64;
+        ctx.add_distinct(d, d);
+
         let st = stats.lock().unwrap();
         let accepted: u64 = st.iter().filter(|(k, _)| k.ends_with("writer-accepted")).map(|x| *x.1).sum();
         ctx.add_distinct(accepted, accepted);
